@@ -419,15 +419,16 @@ class RegexCompiler:
 
         if greedy:
             # Try match first, skip as backup
-            # Reset captures first (they should be undefined if we backtrack to skip)
-            self._emit_capture_reset(capture_groups)
-
             if need_zero_width_reset:
                 # Save position to check if body advanced
                 reg = self._allocate_register()
                 self._emit(Op.SET_POS, reg)
 
             split_idx = self._emit(Op.SPLIT_FIRST, 0)
+            # The captures of the body start out undefined in the branch that
+            # matches it; the branch that skips it keeps what an earlier copy
+            # of the same body captured ((?:(a)|b){1,2} on "a" captures "a")
+            self._emit_capture_reset(capture_groups)
             self._compile_node(body)
 
             if need_zero_width_reset:
@@ -504,25 +505,10 @@ class RegexCompiler:
         capture_groups = self._find_capture_groups(body)
 
         if need_advance_check:
-            reg = self._allocate_register()
-            loop_start = self._current_offset()
-
-            self._emit_capture_reset(capture_groups)
-            self._emit(Op.SET_POS, reg)
-            self._compile_node(body)
-            # CHECK_ADVANCE before SPLIT so that if body took a non-advancing path
-            # (like empty alternative), we backtrack to body alternatives first,
-            # not directly to the loop exit
-            self._emit(Op.CHECK_ADVANCE, reg)
-
-            if greedy:
-                split_idx = self._emit(Op.SPLIT_FIRST, 0)
-                self._emit(Op.JUMP, loop_start)
-                self._patch(split_idx, Op.SPLIT_FIRST, self._current_offset())
-            else:
-                split_idx = self._emit(Op.SPLIT_NEXT, 0)
-                self._emit(Op.JUMP, loop_start)
-                self._patch(split_idx, Op.SPLIT_NEXT, self._current_offset())
+            # The repetition that has to happen may match nothing ((a*)b\1+
+            # on "b"); only the further ones are refused when they do not
+            # advance. X+ is X{1,}: one copy, then the star
+            self._compile_at_least(body, 1, greedy, need_advance_check)
         else:
             loop_start = self._current_offset()
             self._emit_capture_reset(capture_groups)
@@ -544,8 +530,11 @@ class RegexCompiler:
         self, body: Node, min_count: int, greedy: bool, need_advance_check: bool
     ):
         """Compile {n,} quantifier."""
-        # Emit body min_count times
+        # Emit body min_count times; every repetition starts with the captures
+        # of the body undefined
+        capture_groups = self._find_capture_groups(body)
         for _ in range(min_count):
+            self._emit_capture_reset(capture_groups)
             self._compile_node(body)
 
         # Then emit * for the rest
@@ -560,8 +549,11 @@ class RegexCompiler:
         need_advance_check: bool,
     ):
         """Compile {n,m} quantifier."""
-        # Emit body min_count times (required)
+        # Emit body min_count times (required); every repetition starts with
+        # the captures of the body undefined
+        capture_groups = self._find_capture_groups(body)
         for _ in range(min_count):
+            self._emit_capture_reset(capture_groups)
             self._compile_node(body)
 
         # Emit body (max_count - min_count) times (optional)
